@@ -80,7 +80,58 @@ def _skeleton_ok(dump):
     return kids[:1] == ["head"] and len(kids) == 2 and kids[1] in ("body", "frameset")
 
 
+MODE_INVARIANT_BREACHES = []
+
+
+def _watch_mode_invariants():
+    """the three mode invariants contracts/phase_progress.py assumes, checked at every call of the handlers that need them
+    (returns an undo function)"""
+    from html5lib import html5parser as P
+    phases = P._phases
+    saved = []
+
+    def wrap(cls, name, check):
+        real = getattr(cls, name)
+
+        def wrapper(self, token, real=real):
+            try:
+                ok = check(self, token)
+            except Exception as e:
+                ok = "check raised %r" % (e,)
+            if ok is not True:
+                MODE_INVARIANT_BREACHES.append([cls.__name__, name, token.get("name"), str(ok)])
+            return real(self, token)
+        setattr(cls, name, wrapper)
+        saved.append((cls, name, real))
+
+    def scope(self, t):
+        return self.tree.elementInScope(t, variant="table")
+
+    def outer(self):
+        return any(scope(self, t) for t in ("table", "tbody", "thead", "tfoot"))
+    wrap(phases["inRow"], "endTagTableRowGroup", lambda self, tok: (not outer(self)) or scope(self, "tr"))
+    wrap(phases["inCell"], "endTagImply", lambda self, tok: (not (outer(self) or scope(self, "tr"))) or scope(self, "td") or scope(self, "th"))
+    for m in ("startTagTable", "endTagTable"):
+        wrap(phases["inSelectInTable"], m, lambda self, tok: self.tree.elementInScope("select", variant="select") or bool(self.parser.innerHTML))
+
+    def undo():
+        for cls, name, real in saved:
+            setattr(cls, name, real)
+    return undo
+
+
 def run_family(max_len=2, time_limit=5):
+    import html5lib
+    import warnings
+    warnings.simplefilter("ignore")
+    undo = _watch_mode_invariants()
+    try:
+        return _run_family(max_len, time_limit)
+    finally:
+        undo()
+
+
+def _run_family(max_len=2, time_limit=5):
     import html5lib
     import warnings
     warnings.simplefilter("ignore")
@@ -170,12 +221,13 @@ def _family():
 @ground("C03", tier="thorough")
 def parse_is_total_on_an_enumerated_family():
     bad_total, bad_skel, bad_diff, n, bad_lint = _family()
-    bad = bad_total + bad_skel
+    bad = bad_total + bad_skel + [["assumed mode invariant does not hold"] + b for b in MODE_INVARIANT_BREACHES[:5]]
     r = rec("C03/bounded/total-and-skeleton-on-an-enumerated-family", not bad, n,
             "every string of at most 2 pieces out of %d (tags, end tags, text, comment, doctype), as a document (scripting off/on) "
             "and as a fragment in %d context elements, with both tree builders, plus 20 pathological inputs (depth 4000, 200k "
             "characters): parse returns within the time limit without raising, and a document has doctype/comments, one html root "
-            "with head then body or frameset, no text under html" % (len(PIECES), len(CONTAINERS)), witness=bad[:4] or None, exhaustive=False)
+            "with head then body or frameset, no text under html; the three mode invariants assumed by the reprocessing-progress "
+            "contracts hold at every call of the handlers that rely on them" % (len(PIECES), len(CONTAINERS)), witness=bad[:4] or None, exhaustive=False)
     r["bounded"] = "%d parses" % n
     return r
 
